@@ -311,7 +311,45 @@ impl AstLowering {
 
             ast::Expr::MethodCall(o, m, args) => {
                 let receiver = self.lower_expr_spanned(o)?;
-                let args_ir = self.lower_call_args(args)?;
+                let mut args_ir = self.lower_call_args(args)?;
+                // Named arguments of a method call are passed in declaration order (as for free functions), whatever
+                // the order they are written in.
+                if args_ir.iter().any(|a| a.name.is_some()) {
+                    let owner = {
+                        let mut ty = &receiver.ty;
+                        while let IrType::Ref(inner) | IrType::RefMut(inner) = ty {
+                            ty = inner;
+                        }
+                        match ty {
+                            IrType::Struct(name) | IrType::Enum(name) => Some(name.clone()),
+                            _ => None,
+                        }
+                    };
+                    if let Some(params) = owner.and_then(|t| self.method_params_of(&t, m).cloned()) {
+                        let n_positional = args_ir.iter().take_while(|a| a.name.is_none()).count();
+                        let mut slots: Vec<Option<IrCallArg>> = (0..params.len()).map(|_| None).collect();
+                        let mut consistent = args_ir.len() == params.len()
+                            && args_ir.iter().skip(n_positional).all(|a| a.name.is_some());
+                        if consistent {
+                            for (i, arg) in args_ir.iter().enumerate() {
+                                let slot = match &arg.name {
+                                    None => Some(i),
+                                    Some(name) => params.iter().position(|p| p == name),
+                                };
+                                match slot {
+                                    Some(k) if slots[k].is_none() => slots[k] = Some(arg.clone()),
+                                    _ => {
+                                        consistent = false;
+                                        break;
+                                    }
+                                }
+                            }
+                        }
+                        if consistent {
+                            args_ir = slots.into_iter().flatten().collect();
+                        }
+                    }
+                }
 
                 // Check for known methods (enum-based dispatch)
                 if let Some(kind) = MethodKind::from_name(m) {
